@@ -6,8 +6,8 @@
     theorems after them instantiate Properties/C10.v, so that the for-all-
     values statements hold for the checked-in bindings. *)
 From Coq Require Import String List NArith Arith Bool.
-From Tongo Require Import Lib.Bits Lib.Res Spec.TlWire Model.Tl Model.TlMatch
-     Proofs.TlWireP Proofs.TlApiP Generated.TlSchema Generated.TlBindings.
+From Tongo Require Import Lib.Bits Lib.Res Spec.TlWire Model.Tl Model.TlMatch Model.TlHand
+     Proofs.TlWireP Proofs.TlGoP Proofs.TlApiP Proofs.TlHandP Generated.TlSchema Generated.TlBindings.
 Import ListNotations.
 Local Open Scope N_scope.
 
@@ -98,5 +98,56 @@ Proof.
              C10_gen_ids_distinct Hmm e0 E0 He).
 Qed.
 
+(** * the hand-written codecs against today's declarations *)
+Definition has_fields (c : string) (fs : list field) : bool :=
+  match find_ctor tl_types c with
+  | Some d => list_eqb (fun a b => String.eqb (fname a) (fname b) &&
+                          match fcond a, fcond b with None, None => true | _, _ => false end &&
+                          match goty (fty a), goty (fty b) with
+                          | Some x, Some y => gty_eqb x y | _, _ => false end &&
+                          match fty a, fty b with
+                          | TInt, TInt | TLong, TLong | TInt256, TInt256 => true | _, _ => false end)
+                (dfields d) fs
+  | None => false
+  end.
+
+Theorem C10_gen_hand_declarations :
+  has_fields "liteServer.accountId" fields_account_id = true /\
+  has_fields "tonNode.blockId" fields_block_id = true /\
+  has_fields "tonNode.blockIdExt" fields_block_id_ext = true.
+Proof. vm_compute. repeat split; reflexivity. Qed.
+
+Lemma has_fields_sound c fs : has_fields c fs = true ->
+  exists d, find_ctor tl_types c = Some d /\ dfields d = fs.
+Proof.
+  unfold has_fields. destruct (find_ctor tl_types c) as [d|]; [|discriminate]. intros H.
+  exists d. split; [reflexivity|]. revert H. apply list_eqb_eq.
+  intros [n1 c1 t1] [n2 c2 t2]; cbn [fname fcond fty]. intros H.
+  repeat (apply andb_true_iff in H as [H ?]). apply String.eqb_eq in H. subst n2.
+  destruct c1, c2; try discriminate. destruct t1, t2; try discriminate; reflexivity.
+Qed.
+
+(* ton.AccountID, ton.BlockID, ton.BlockIDExt write what lite_api.tl says, for all values *)
+Theorem C10_gen_hand_codecs_sound :
+  (forall w a, w < two32 -> hash_ok a ->
+     tl_encode gonm tl_types (TBare "liteServer.accountId") (val_account_id w a)
+       = Some (hand_account_marshal w a)) /\
+  (forall w sh sq, w < two32 -> sh < two64 -> sq < two32 ->
+     tl_encode gonm tl_types (TBare "tonNode.blockId") (val_block_id w sh sq)
+       = Some (hand_blockid_marshal w sh sq)) /\
+  (forall w sh sq rh fh, w < two32 -> sh < two64 -> sq < two32 -> hash_ok rh -> hash_ok fh ->
+     tl_encode gonm tl_types (TBare "tonNode.blockIdExt") (val_block_id_ext w sh sq rh fh)
+       = Some (hand_blockidext_marshal w sh sq rh fh)).
+Proof.
+  destruct C10_gen_hand_declarations as (H1 & H2 & H3).
+  apply has_fields_sound in H1 as (d1 & F1 & D1). apply has_fields_sound in H2 as (d2 & F2 & D2).
+  apply has_fields_sound in H3 as (d3 & F3 & D3).
+  repeat split; intros.
+  - apply (hand_account_layout tl_types d1); assumption.
+  - apply (hand_block_id_layout tl_types d2); assumption.
+  - apply (hand_block_id_ext_layout tl_types d3); assumption.
+Qed.
+
+Print Assumptions C10_gen_hand_codecs_sound.
 Print Assumptions C10_gen_bindings_sound.
 Print Assumptions C10_gen_requests_sound.
